@@ -388,7 +388,9 @@ class Analysis:
                         state.pop(dst["l"], None)
             elif term["k"] == "return":
                 for (oid, direct, crossed) in state.get(0, frozenset()):
-                    if origins[oid]["active"] or origins[oid]["kind"] == "guard":
+                    # a value that merely derives from a parameter is not a *new* unrooted result: if the caller's argument is
+                    # unrooted the call result inherits that taint from the argument anyway (see `destination` above)
+                    if (origins[oid]["active"] and origins[oid]["kind"] != "param") or origins[oid]["kind"] == "guard":
                         if ref_capable(fn.local_ty(0)):
                             ret_unrooted[0] = True
                             if origins[oid].get("source"):
